@@ -28,6 +28,19 @@ INVARIANTS TypeOK SemInv NoFalseCycle CycleIff OkIff FaultFails OkClosed PanicSu
 %(props)s
 """
 
+SCHED_CFG = """SPECIFICATION SpecH
+CONSTANTS
+  Files = {%(files)s}
+  DP = "d"
+  Pars = {%(pars)s}
+  MaxCancels = %(cancels)d
+  SampleSize = %(sample)d
+  Configs <- %(configs)s
+VIEW ViewH
+INVARIANTS SemInv ExportSched
+CHECK_DEADLOCK FALSE
+"""
+
 TRACE_CFG = """SPECIFICATION TraceSpec
 CONSTANTS
   Files = {%(files)s}
@@ -77,6 +90,71 @@ def mc(wd, st, name, files, pars, cancels, sample, configs, liveness=True, timeo
     for c in r.cases:
         c["files"] = list(files)
     return r.cases
+
+
+def sched_families(pid, tier):
+    """(name, files, pars, cancels, graph sample, configs): schedules exported by MCCompileExecSched"""
+    F2 = ("a", "b"); F3 = ("a", "b", "c"); FD = ("a", "b", "d")
+    if pid == "C07":
+        if tier == "quick":
+            return [("s2_faults", F2, (1, 2), 0, 0, "ConfigsFaults")]
+        return [("s2_faults_cancel", F2, (1, 2), 1, 0, "ConfigsFaults"), ("s3_faults", F3, (2,), 0, 25, "ConfigsFaults")]
+    if tier == "quick" and pid == "C05":
+        return [("s3", F3, (2,), 0, 6, "ConfigsNoFaultSmall")]
+    if tier == "quick":
+        return [("s2", F2, (1, 2), 0, 0, "ConfigsMissing"), ("sd", FD, (1,), 0, 0, "ConfigsOvr")]
+    return [("s2", F2, (1, 2, 3), 0, 0, "ConfigsMissing"), ("s3p1", F3, (1,), 0, 0, "ConfigsNoFaultSmall"),
+            ("s3p2", F3, (2,), 0, 150, "ConfigsNoFaultSmall"), ("sd", FD, (1, 2, 3), 0, 0, "ConfigsOvr")]
+
+
+def schedule_replay(pid, tier, wd, st, verdict, binary, rng):
+    """Direction A for interleavings: every TLC-exported schedule is driven through the gates of the real
+    compiler, one goroutine per model step; the goroutine must be parked at the gate the model's next
+    action names, the outcome must be the one the model computed for that schedule, and the trace of the
+    controlled run is validated like any other."""
+    total = 0
+    for (name, files, pars, cancels, sample, configs) in sched_families(pid, tier):
+        cfg = "MCCES_%s.cfg" % name
+        with open(os.path.join(wd, cfg), "w") as fh:
+            fh.write(SCHED_CFG % {"files": fileset(files), "pars": ", ".join(map(str, pars)), "cancels": cancels,
+                                  "sample": sample, "configs": configs})
+        r = vf.tlc("MCCompileExecSched", cfg, wd, workers=8, tseed=vf.seed(), timeout=3000)
+        if r.violated:
+            raise vf.MachineryError("TLC: %s violated in MCCompileExecSched (%s)" % (r.violated, name))
+        scheds = r.cases
+        st.states += r.distinct
+        st.transitions += r.generated
+        if tier == "quick" and len(scheds) > 1500:
+            scheds = rng.sample(scheds, 1500)
+        runs = []
+        for i, c in enumerate(scheds):
+            runs.append({"id": i + 1, "imports": c["imports"], "req": c["req"], "plan": c["plan"], "par": c["par"],
+                         "ovr": c["ovr"], "seed": 0, "trace": True, "sched": c["sched"]})
+        by_id = {x["id"]: x for x in runs}
+        res, tracefile = run_real(binary, wd, name, runs)
+        for rid, o in res.items():
+            c = scheds[rid - 1]
+            small = {k: c[k] for k in ("imports", "req", "plan", "par", "ovr", "sched")}
+            if o.get("nonconf"):
+                import re
+                m = re.search(r"step \d+ \['(\w+)'", o["nonconf"])
+                verdict.disagree("schedule-nonconformance:" + (m.group(1) if m else "?"), small, o["nonconf"])
+            elif o.get("hung"):
+                verdict.disagree("hang", small, "controlled schedule did not finish")
+            elif o["class"] != c["mres"] and not (cancels and o["class"] == "ctx"):
+                verdict.disagree("schedule-outcome:%s-instead-of-%s" % (o["class"].split(":")[0], c["mres"]), small, o.get("err", ""))
+            if o.get("leak", 0) > 0:
+                verdict.disagree("goroutine-leak", small, "after a controlled schedule")
+        total += len(res)
+        st.families.append({"family": "schedules:" + name, "files": len(files), "pars": list(pars), "cancels": cancels,
+                            "graph_sample": sample, "schedules_exported": len(r.cases), "schedules_replayed": len(res),
+                            "distinct_states": r.distinct, "wall_s": round(r.wall, 1)})
+        if len(st.samples) < 4 and scheds:
+            st.samples.append({"schedule": scheds[len(scheds) // 2]})
+        validate(wd, st, verdict, name, tracefile, files, by_id)
+        if len(verdict.violations) > 20:
+            break
+    st.sched_replayed = total
 
 
 def run_real(binary, wd, tag, runs, timeout=3000):
@@ -238,8 +316,8 @@ def families(pid, tier):
     if pid == "C06":
         if tier == "quick":
             return [("f2_missing", F2, (1, 2), 0, 0, "ConfigsMissing", True),
-                    ("f3_sample", F3, (1, 2), 0, 12, "ConfigsNoFaultSmall", True),
-                    ("fd_override", FD, (1, 2), 0, 0, "ConfigsOvr", True)]
+                    ("f3_sample", F3, (1, 2), 0, 8, "ConfigsNoFaultSmall", True),
+                    ("fd_override", FD, (1,), 0, 0, "ConfigsOvr", False)]
         return [("f2_missing", F2, (1, 2, 3), 0, 0, "ConfigsMissing", True),
                 ("f3_all_p1", F3, (1,), 0, 0, "ConfigsNoFault", True),
                 ("f3_all_p2", F3, (2,), 0, 0, "ConfigsNoFaultSmall", True),
@@ -249,8 +327,8 @@ def families(pid, tier):
     if pid == "C05":
         if tier == "quick":
             return [("f2_all", F2, (1, 2), 0, 0, "ConfigsNoFault", False),
-                    ("f3_sample", F3, (1, 3), 0, 8, "ConfigsNoFaultSmall", False),
-                    ("fd_override", FD, (1, 2), 0, 0, "ConfigsOvr", False)]
+                    ("f3_sample", F3, (1, 3), 0, 6, "ConfigsNoFaultSmall", False),
+                    ("fd_override", FD, (2,), 0, 0, "ConfigsOvr", False)]
         return [("f2_all", F2, (1, 2, 3), 0, 0, "ConfigsNoFault", False),
                 ("f3_sample", F3, (1, 2, 3), 0, 150, "ConfigsNoFault", False),
                 ("fd_override", FD, (1, 2, 3), 0, 0, "ConfigsOvr", False)]
@@ -332,6 +410,8 @@ def run(pid, tier, replay=None):
         if len(verdict.violations) > 20:
             break
 
+    if len(verdict.violations) <= 20:
+        schedule_replay(pid, tier, wd, st, verdict, binary, rng)
     rc = verdict.finish()
     level = "fault_enumeration" if pid == "C07" else "model_checking"
     vf.write_evidence(pid, tier, level, {
@@ -343,6 +423,7 @@ def run(pid, tier, replay=None):
                 "where stated); each is run on the real Compiler under several seed-perturbed schedules; distinct_nontrivial "
                 "counts distinct abstract feature vectors (cyclic?, faulty?, fault kinds, #requested, par, #edges, out-degree profile)",
         "samples": st.samples, "families": st.families, "configurations": st.configs,
+        "schedules_replayed_through_gates": getattr(st, "sched_replayed", 0),
         "exhaustive": all(f["graph_sample"] == 0 for f in st.families),
     }, ["CompileExec.tla models compiler.go at critical-section granularity (DESIGN Appendix A); semaphore grant order is "
         "nondeterministic in the model (Go's is FIFO: a refinement)",
